@@ -89,7 +89,10 @@ fn gen(seed: u64, idx: u64) -> Spec {
         // an RP ID is an opaque string to the authenticator: also spellings a platform may hand over
         rp: *rng.pick(&["example.com", "example.org", "example.com", "example.org", "example.com.", "localhost.", "Example.COM", "example.com..", ".", ""]),
         n_seeded: if store == StoreKind::Single { 1 } else { rng.range(0, 3) },
-        list: match rng.below(6) {
+        list: match rng.below(8) {
+            // several held credentials named, in an order of the caller's choosing
+            6 => Some(vec![2, 0, 1]),
+            7 => Some(if rng.bool() { vec![1, 0] } else { vec![2, 1] }),
             0 => None,
             1 => Some(vec![]),
             2 => Some(vec![0]),
